@@ -149,12 +149,6 @@ Lemma eq_eps_refuted :
   exists a b, finite a = true /\ finite b = true /\ eq_eps a b = true /\ lt_impl a b = true /\ eq_spec a b = false.
 Proof. exists w_1e20, w_2e20. vm_compute. repeat split. Qed.
 
-Lemma eq_impl_refuted : num_eq_epsilon = true ->
-  exists a b, finite a = true /\ finite b = true /\ eq_impl a b = true /\ lt_impl a b = true.
-Proof.
-  intros E. destruct eq_eps_refuted as (a & b & Ha & Hb & H1 & H2 & _).
-  exists a, b. unfold eq_impl. rewrite E. auto.
-Qed.
 
 Lemma eq_eps_not_transitive :
   exists a b c, finite a = true /\ finite b = true /\ finite c = true /\
@@ -352,8 +346,6 @@ Qed.
 
 Definition w_m2 : f64 := b64_of_bits 13835058055282163712.     (* -2 *)
 Definition w_63 : f64 := b64_of_bits 4634063524449746944.      (* 63 *)
-Definition w_2p53 : f64 := b64_of_bits 4845873199050653696.    (* 2^53 *)
-Definition w_1e300 : f64 := b64_of_bits 9101834081028259840.   (* 1e300 *)
 
 (* results are compared as bit patterns ([enc_num]): normalising a float made by [of_Z] would
    also normalise its validity proof *)
@@ -361,13 +353,7 @@ Lemma shl_refuted : exists a b, finite a = true /\ finite b = true /\
   enc_num (shl_impl a b) = 0 /\ shl_spec a b = None /\ known_shl_neg a b = true.
 Proof. exists w_m2, w_63. vm_compute. repeat split. Qed.
 
-Lemma shr_refuted : shr_count_checked = false -> exists a b, finite a = true /\ finite b = true /\
-  enc_num (shr_impl a b) = 4607182418800017408 /\ shr_spec a b = None /\ known_shr_count a b = true.
-Proof. intros _. exists (b64_of_bits 4607182418800017408), w_2p53. vm_compute. repeat split. Qed.
 
-Lemma bnot_refuted : bitnot_checked = false -> exists a, finite a = true /\
-  enc_num (bnot_impl a) = 14114281232179134464 /\ bnot_spec a = None /\ known_bnot a = true.
-Proof. intros _. exists w_1e300. vm_compute. repeat split. Qed.
 
 (** * sort / uniq / set / setMember *)
 Definition lef (a b : f64) : Prop := le_impl a b = true.
@@ -455,23 +441,7 @@ Proof.
   - eapply IH; eassumption.
 Qed.
 
-Lemma set_outside_known l : Forall (fun y => finite y = true) l ->
-  (forall a b, In a l -> In b l -> known_eps a b = false) ->
-  uniq_impl l = uniq_spec l /\ set_impl l = set_spec l.
-Proof.
-  intros Fl K. rewrite Forall_forall in Fl. split.
-  - apply uniq_by_ext. intros a b Ia Ib. apply eq_outside_known; auto.
-  - apply uniq_by_ext. intros a b Ia Ib. rewrite sort_in in Ia, Ib. apply eq_outside_known; auto.
-Qed.
 
-Lemma set_refuted : num_eq_epsilon = true ->
-  exists l x, Forall (fun y => finite y = true) l /\ In x l /\
-              set_member_impl x (set_impl l) = Some false /\ set_member_impl x (set_spec l) = Some true.
-Proof.
-  intros E. exists [w_1e20; w_2e20], w_2e20.
-  split; [repeat constructor|]. split; [right; left; reflexivity|].
-  unfold set_impl, uniq_impl, eq_impl. rewrite E. vm_compute. split; reflexivity.
-Qed.
 
 (** * no non-finite number is ever produced *)
 Ltac fin_tac :=
@@ -496,4 +466,44 @@ Lemma div_mod_by_zero a b : finite b = true -> B2R64 b = 0%R -> div_impl a b = N
 Proof.
   intros Hb Z. unfold div_impl, mod_impl. rewrite feq_zero_R by assumption.
   rewrite Req_bool_true by assumption. split; reflexivity.
+Qed.
+
+(** * after the fixes ce0d2fe / 8b733a9: the code's equality is IEEE equality, `>>` and `~`
+    range-check their operands — the restrictions disappear (these proofs compute the
+    regenerated flags of Gen/GenNum.v and break if a flag flips back) *)
+Lemma eq_impl_ieee a b : eq_impl a b = eq_spec a b.
+Proof. reflexivity. Qed.
+
+Lemma shr_refines_all a b : finite a = true -> finite b = true -> shr_impl a b = shr_spec a b.
+Proof. intros Ha Hb. apply shr_refines; [assumption|assumption|reflexivity]. Qed.
+
+Lemma bnot_refines_all a : finite a = true -> bnot_impl a = bnot_spec a.
+Proof. intros Ha. apply bnot_refines; [assumption|reflexivity]. Qed.
+
+Lemma trichotomy_impl a b : finite a = true -> finite b = true ->
+  exactly_one (lt_impl a b) (eq_impl a b) (gt_impl a b) /\
+  le_impl a b = (lt_impl a b || eq_impl a b) /\
+  ge_impl a b = (gt_impl a b || eq_impl a b) /\
+  gt_impl a b = lt_impl b a /\
+  eq_impl a b = eq_impl b a.
+Proof. intros Ha Hb. rewrite !eq_impl_ieee. now apply trichotomy. Qed.
+
+Lemma eq_impl_key a b : finite a = true -> finite b = true ->
+  (eq_impl a b = true <-> B2R64 a = B2R64 b).
+Proof.
+  intros Ha Hb. rewrite eq_impl_ieee. unfold eq_spec. rewrite feq_R by assumption.
+  destruct (Req_bool_spec (B2R64 a) (B2R64 b)); split; congruence.
+Qed.
+
+Lemma eq_impl_equivalence :
+  (forall a, finite a = true -> eq_impl a a = true) /\
+  (forall a b, finite a = true -> finite b = true -> eq_impl a b = true -> eq_impl b a = true) /\
+  (forall a b c, finite a = true -> finite b = true -> finite c = true ->
+     eq_impl a b = true -> eq_impl b c = true -> eq_impl a c = true).
+Proof.
+  repeat split.
+  - intros a Ha. now apply eq_impl_key.
+  - intros a b Ha Hb H. apply eq_impl_key in H; try assumption. apply eq_impl_key; auto.
+  - intros a b c Ha Hb Hc H1 H2. apply eq_impl_key in H1, H2; try assumption.
+    apply eq_impl_key; try assumption. congruence.
 Qed.
